@@ -270,6 +270,7 @@ func c05Base(c *Ctx, p *Prog) {
 	n := 0
 	for _, o := range outs {
 		var hasSlash, hasDash *bool
+		var cutCall *Sym
 		for _, k := range o.AtomKeys() {
 			v := o.Assign[k]
 			_ = v
@@ -294,6 +295,13 @@ func c05Base(c *Ctx, p *Prog) {
 						return
 					}
 				}
+				continue
+			}
+			// the library form: base, _, found := bytes.Cut(name, sep) with sep the one byte '/'
+			if s.Op == "extract" && s.Idx == 2 && len(s.Args) == 1 && s.Args[0].Op == "call" && strings.HasPrefix(s.Args[0].Name, "bytes.Cut") && c05SepIsSlash(base) {
+				vv := v
+				hasSlash = &vv
+				cutCall = s.Args[0]
 				continue
 			}
 			if s.Op != "binop" || !strings.Contains(s.String(), "bytes.IndexByte") {
@@ -358,7 +366,14 @@ func c05Base(c *Ctx, p *Prog) {
 		}
 		n++
 		res := o.Results[0]
-		if *hasSlash {
+		if *hasSlash && cutCall != nil {
+			// Cut's first result, of a Cut applied to the name
+			isName := func(s *Sym) bool {
+				return s.Op == "param" || (s.Op == "call" && strings.HasSuffix(strings.Split(s.Name, "@")[0], ".Full") && len(s.Args) == 1 && s.Args[0].Op == "param")
+			}
+			ok := res.Op == "extract" && res.Idx == 0 && len(res.Args) == 1 && res.Args[0].String() == cutCall.String() && len(cutCall.Args) == 2 && isName(cutCall.Args[0])
+			c.Check(ok, R, "Base[name has '/']", site, "the text before the first '/', untouched", "with a '/' in the name Base is not simply the text before the first '/': for 'Test-8/foo' Base and the first element of Parts disagree, so .name matches differently from the decomposition")
+		} else if *hasSlash {
 			// the text before the first '/' of the name — or of the splitter's prefix, which has the same first '/'
 			// because the -N suffix the splitter removes contains none; what is cut and what is searched must be the
 			// same text
@@ -1419,4 +1434,74 @@ func c05AbsentIsEmpty(c *Ctx, p *Prog, R string) {
 			"a key:value term can answer without asking the match (a path that returns a constant, e.g. when the extractor returned nil): an absent key is the empty string — 'key:\"\"', 'key:/^$/' and '-key:x' must treat a result without the key like one whose value is empty, as projections do")
 	}
 	c.Floor(R, "closures built for key:value terms", n, 1)
+}
+
+// c05SepIsSlash: every bytes.Cut in fn is given, as separator, the one byte '/': a literal, or a package-level []byte
+// that the package initialiser sets to {'/'} and nothing else stores to.
+func c05SepIsSlash(fn *ssa.Function) bool {
+	okAll, n := true, 0
+	eachInstr(fn, func(_ *ssa.BasicBlock, in ssa.Instruction) {
+		call, ok := in.(*ssa.Call)
+		if !ok || !objIs(calleeObj(&call.Call), "bytes", "", "Cut") {
+			return
+		}
+		n++
+		sep := call.Call.Args[1]
+		isSlashArray := func(v ssa.Value) bool {
+			sl, ok := v.(*ssa.Slice)
+			if !ok {
+				return false
+			}
+			al, ok := sl.X.(*ssa.Alloc)
+			if !ok {
+				return false
+			}
+			at, ok := al.Type().(*types.Pointer).Elem().(*types.Array)
+			if !ok || at.Len() != 1 {
+				return false
+			}
+			good := false
+			for _, r := range *al.Referrers() {
+				if ia, ok := r.(*ssa.IndexAddr); ok {
+					for _, r2 := range *ia.Referrers() {
+						if st, ok := r2.(*ssa.Store); ok {
+							if k, ok := constInt(st.Val); ok && k == '/' {
+								good = true
+							}
+						}
+					}
+				}
+			}
+			return good
+		}
+		if isSlashArray(sep) {
+			return
+		}
+		g, ok := loadAddr(sep).(*ssa.Global)
+		if !ok || g.Pkg == nil {
+			okAll = false
+			return
+		}
+		stores, good := 0, false
+		for _, m := range g.Pkg.Members {
+			f, ok := m.(*ssa.Function)
+			if !ok {
+				continue
+			}
+			for _, ff := range append([]*ssa.Function{f}, f.AnonFuncs...) {
+				eachInstr(ff, func(_ *ssa.BasicBlock, in2 ssa.Instruction) {
+					if st, ok := in2.(*ssa.Store); ok && st.Addr == ssa.Value(g) {
+						stores++
+						if ff.Name() == "init" && isSlashArray(st.Val) {
+							good = true
+						}
+					}
+				})
+			}
+		}
+		if !(good && stores == 1) {
+			okAll = false
+		}
+	})
+	return okAll && n > 0
 }
